@@ -7,12 +7,9 @@ use lsp_types::{
     PrepareRenameResponse, RenameParams, TextDocumentPositionParams, TextEdit, WorkspaceEdit,
 };
 use lsp_types::Url;
-use mos_core::codegen::{
-    CodegenContext, Definition, DefinitionType, QueryTraversalStep, SymbolIndex,
-};
+use mos_core::codegen::{CodegenContext, Definition, DefinitionType, SymbolIndex};
 use mos_core::parser::code_map::LineCol;
-use mos_core::parser::{Identifier, IdentifierPath};
-use std::collections::HashMap;
+use mos_core::parser::Identifier;
 
 pub struct PrepareRenameRequestHandler;
 pub struct RenameHandler;
@@ -192,61 +189,10 @@ fn rename_edits(
                 _ => return None,
             };
 
-            // First, determine all the query steps for every usage
-            let steps = def
-                .usages()
-                .into_iter()
-                .map(|dl| {
-                    let sl = codegen.analysis().look_up(dl.span);
-                    let path = IdentifierPath::from(sl.file.source_slice(dl.span));
-                    (
-                        dl,
-                        (
-                            codegen
-                                .symbols()
-                                .query_traversal_steps(dl.parent_scope, &path),
-                            path,
-                        ),
-                    )
-                })
-                .collect::<HashMap<_, _>>();
-
-            // Now, rename the actual symbol. This happens in a copy of the symbol table: the request only computes edits,
-            // the analysis results must keep describing the buffers as they are until the client has applied them.
-            let mut symbols = codegen.symbols().clone();
-            symbols.rename(
-                location.parent_scope,
-                def_symbol_nx,
-                Identifier::from(new_name),
-            );
-
-            // And rename it across all other paths by which it may be reached
-            // (other paths may exist due to imports)
-            for (dl, (steps, _)) in steps.iter() {
-                if let Some(QueryTraversalStep::Symbol(nx)) = steps.last() {
-                    symbols.rename(
-                        dl.parent_scope,
-                        *nx,
-                        Identifier::from(new_name),
-                    );
-                }
-            }
-
-            // And reconstruct the identifiers
-            let new_paths = steps
-                .into_iter()
-                .filter_map(|(dl, (query_traversal_steps, old_path))| {
-                    let include_super = old_path.contains_super();
-                    symbols
-                        .query_steps_to_path(
-                            dl.parent_scope,
-                            &query_traversal_steps,
-                            include_super,
-                        )
-                        .map(|path| (dl, path))
-                })
-                .collect::<HashMap<_, _>>();
-
+            // Every occurrence that is recorded for the symbol spans the name alone (the parts of a dotted path are recorded
+            // one by one), so what takes its place is the new name. Nothing is looked up again by name here: the name may
+            // mean something else where it is used (a macro name that a label shadows) and the symbol may go by an exported
+            // copy of its name there (`.import *`).
             let changes = def
                 .definition_and_usages()
                 .into_iter()
@@ -266,21 +212,13 @@ fn rename_edits(
                     let span = dl
                         .span
                         .subspan((path_len - name.len()) as u64, path_len as u64);
-                    let is_aliased = text.len() != name.len();
-                    Some((dl, span, is_aliased))
+                    Some(span)
                 })
-                .map(|(dl, span, is_aliased)| {
+                .map(|span| {
                     let loc = to_location(codegen.analysis().look_up(span));
-
-                    // We either grab a renamed usage, or we fallback to the name specified by the user for the source definition
-                    let new_text = match new_paths.get(dl) {
-                        Some(new_path) if !is_aliased => new_path.to_string(),
-                        _ => new_name.to_string(),
-                    };
-
                     let edit = TextEdit {
                         range: loc.range,
-                        new_text,
+                        new_text: new_name.to_string(),
                     };
                     (loc.uri, edit)
                 })
